@@ -1,10 +1,215 @@
-"""C06 -- decided by engine E1 (see DESIGN.md section 5, C06)."""
-from . import _e1props
+"""C06 -- task lifecycle is a legal state machine; cancellation is closed downstream.
+
+E1: the run monitor's automaton / dead-set rules on whole simulations (all slices of
+_e1props, incl. the adversarial scheduler).
+E2: breadth-first search over the operation histories of small real TaskGraphs (the
+objects and transitions of C18's frontier search: release / schedule for now or later /
+unschedule / start / finish+notify / cancel / tick) with a *reference automaton* kept
+next to every task: after each operation the state of every real Task must be the
+reference state, a task the operation killed (cancelled explicitly, on the branch a
+conditional did not take, or starved of its inputs) must be CANCELLED and nothing
+else may be."""
+from . import _e1props, c18
+from ..checklib import run_generic, generic_replay, combine_and_finish
+
+
+def ref_apply(g, ref, op):
+    """Update the reference (dict name -> dict(state, fallback, dead)) for one op that
+    the real objects accepted.  States are names of TaskState members."""
+    k = op[0]
+    if k == "tick":
+        return
+    n = op[1]
+    r = ref[n]
+    if k == "rel":
+        if r["state"] == "VIRTUAL":
+            r["state"] = "RELEASED"
+            r["fallback"] = "RELEASED"
+        # a release that arrives while SCHEDULED leaves the state (and the state the
+        # task would fall back to) alone
+    elif k == "sched":
+        if r["state"] != "SCHEDULED":
+            r["fallback"] = r["state"]
+        r["state"] = "SCHEDULED"
+    elif k == "unsched":
+        r["state"] = r["fallback"]
+    elif k == "start":
+        r["state"] = "RUNNING"
+    elif k == "fin":
+        r["state"] = "COMPLETED"
+        if g.kw[n].get("conditional"):
+            ch = list(g.children[n])
+            positive = [c for c in ch if g.kw[c].get("probability", 1.0) > 0
+                        and not ref[c]["dead"]]
+            taken = positive[op[2] % len(positive)] if positive else None
+            for c in ch:
+                if c != taken:
+                    ref[c]["dead"] = True
+    elif k == "cancel":
+        r["dead"] = True
+    # closure: a task that can no longer receive its inputs
+    changed = True
+    while changed:
+        changed = False
+        for m in ref:
+            if ref[m]["dead"] or not g.parents[m]:
+                continue
+            pd = [ref[p]["dead"] for p in g.parents[m]]
+            if (all(pd) if g.kw[m].get("terminal") else any(pd)):
+                ref[m]["dead"] = True
+                changed = True
+
+
+def judge(g, ref, bad):
+    for n, t in g.t.items():
+        st = t.state.name
+        r = ref[n]
+        if r["dead"] and r["state"] in ("VIRTUAL", "RELEASED", "SCHEDULED"):
+            if st != "CANCELLED":
+                bad("lifecycle.dead_not_cancelled",
+                    f"{n} can no longer receive its inputs (or was cancelled) but is "
+                    f"{st}")
+        elif st != r["state"]:
+            bad("lifecycle.wrong_state", f"{n} is {st}, the reference automaton says "
+                                         f"{r['state']}")
+
+
+def lifecycle_job(item, tier):
+    from .. import bootstrap  # noqa: F401
+
+    _k, gname, prefix, depth, cap = item[:5]
+    shard_k, shard_m = (item[5], item[6]) if len(item) > 5 else (0, 1)
+    prefix = tuple(tuple(o) for o in prefix)
+    out = []
+    stats = {"lifecycle_states": 0, "retractions": 0, "second_retractions": 0,
+             "cancellations": 0, "ops_refused_by_object": 0,
+             "refusals_that_changed_state": 0}
+
+    def mkbad(hist):
+        def bad(rule, msg):
+            if len(out) < 20:
+                out.append({"rule": rule, "msg": f"{gname} history {list(hist)}: {msg}",
+                            "case": {"graph": gname, "history": [list(o) for o in hist],
+                                     "lifecycle": True}})
+        return bad
+
+    def build(hist, bad=None):
+        g = c18.G(gname)
+        ref = {n: {"state": "VIRTUAL", "fallback": "VIRTUAL", "dead": False}
+               for n in g.t}
+        for op in hist:
+            c18.apply(g, tuple(op), None)
+            ref_apply(g, ref, tuple(op))
+        return g, ref
+
+    g, ref = build(prefix)
+    judge(g, ref, mkbad(prefix))
+    seen = {c18.canon(g)}
+    frontier = [prefix]
+    transitions = 0
+    for d in range(len(prefix), depth):
+        nxt = []
+        for hist in frontier:
+            g, _r = build(hist)
+            for oi, op in enumerate(c18.enabled(g)):
+                if d == len(prefix) and oi % shard_m != shard_k:
+                    continue
+                h2 = hist + (op,)
+                bad = mkbad(h2)
+                g2, r2 = build(hist)
+                before = c18.canon(g2)
+                try:
+                    c18.apply(g2, op, None)
+                except Exception:  # noqa: B902
+                    stats["ops_refused_by_object"] += 1
+                    if op[0] != "fin" and c18.canon(g2) != before:
+                        # (`fin` is a composite of the harness: step, finish, notify --
+                        # a notify that raises after the finish is not a refused call)
+                        stats["refusals_that_changed_state"] += 1
+                        bad("lifecycle.refusal_changed_state",
+                            f"{op} was refused by the object but changed its state")
+                    continue
+                ref_apply(g2, r2, op)
+                transitions += 1
+                if op[0] == "unsched":
+                    stats["retractions"] += 1
+                    if sum(1 for o in h2 if o[0] == "unsched" and o[1] == op[1]) > 1:
+                        stats["second_retractions"] += 1
+                if op[0] == "cancel":
+                    stats["cancellations"] += 1
+                judge(g2, r2, bad)
+                c = c18.canon(g2)
+                if c in seen or len(seen) >= cap:
+                    continue
+                seen.add(c)
+                nxt.append(h2)
+        frontier = nxt
+        if not frontier:
+            break
+    stats["lifecycle_states"] = len(seen)
+    return {"states": len(seen), "transitions": transitions, "validated": transitions,
+            "evaluations": transitions, "stats": stats, "violations": out,
+            "distinct": [hash(c) for c in seen],
+            "samples": [{"graph": gname, "prefix": [list(o) for o in prefix],
+                         "depth": depth, "states": len(seen)}]}
+
+
+def case_job(case, tier):
+    from .. import bootstrap  # noqa: F401
+
+    out = []
+    hist = tuple(tuple(o) for o in case["history"])
+    g = c18.G(case["graph"])
+    ref = {n: {"state": "VIRTUAL", "fallback": "VIRTUAL", "dead": False} for n in g.t}
+
+    def bad(rule, msg):
+        out.append({"rule": rule, "msg": f"{case['graph']} history {list(hist)}: {msg}",
+                    "case": case})
+    for op in hist:
+        c18.apply(g, op, None)
+        ref_apply(g, ref, op)
+    judge(g, ref, bad)
+    return {"violations": out}
+
+
+def job(item, tier):
+    if item[0] == "bfs":
+        return lifecycle_job(item, tier)
+    return case_job(item[1], tier)
+
+
+def confirm_job(case, tier):
+    return case_job(case, tier)
+
+
+def items(tier):
+    # same graphs, prefixes, depths and shards as C18's frontier search
+    return list(c18.items(tier))
 
 
 def main(tier, seed):
-    _e1props.main("C06", tier, seed)
+    e2 = run_generic(
+        "C06", tier, seed, items(tier), job, extra=(tier,), engine="e2", finish=False,
+        rule="BFS over the operation histories of 6 real TaskGraphs (chain, fork, join, "
+             "diamond, skewed join with a tail, conditional+join) from the initial state "
+             "and from 'all sources running'; reference automaton per task (state, state "
+             "it would fall back to, dead-set closure) compared with every real Task "
+             "after every operation; operations the object refuses must not change it",
+        assumptions=["depth %d from the initial state (one less for the two 5-node "
+                     "graphs), %d operations beyond 'all sources running'"
+                     % ((6, 4) if tier == "quick" else (8, 6))],
+        required_stats=("lifecycle_states", "retractions", "second_retractions",
+                        "cancellations"),
+        chunk=1, budget_s=200 if tier == "quick" else 2400, confirm_job=confirm_job)
+    e1 = _e1props.main("C06", tier, seed, finish=False)
+    combine_and_finish("C06", tier, seed, [("E2-lifecycle", e2), ("E1-runs", e1)])
 
 
 def replay(path):
-    return _e1props.replay("C06", path)
+    import json
+
+    with open(path) as f:
+        d = json.load(f)
+    if d.get("engine") == "e1":
+        return _e1props.replay("C06", path)
+    return generic_replay("C06", path, confirm_job, extra=("quick",), item_job=job)
